@@ -1,6 +1,1642 @@
-//! C18 — not built yet.
-use mcx::{Ctx, Value};
-pub fn run(_ctx: &Ctx, _replay: Option<&Value>) -> i32 {
-    eprintln!("C18: check not built yet");
-    2
+//! C18 — standard-library memory, stack and collection utilities keep their contracts.
+//!
+//! (E) parts, each a finite explicitly enumerated space executed on the real VM:
+//!   * `std::sys::truncate_stack`: every depth 16..=48 (distinct contents), as stack inputs, after
+//!     pushes, inside a `call` frame and inside a procedure with locals;
+//!   * `std::mem::memcopy`: all (n, read_ptr, write_ptr), n in 0..=4(6), pointers in an 8-word window;
+//!     overlapping ranges are executed but only checked for the frame condition;
+//!   * `pipe_words_to_memory`, `pipe_double_words_to_memory`, `pipe_preimage_to_memory`;
+//!   * the arithmetic helpers of `std::collections::mmr` and pack/unpack/add on synthetic peak lists.
+//! (S) parts, explored with `mcx::bfs`: the native `Smt` / `Mmr` of miden-crypto as explicit-state
+//! machines; every transition runs the masm procedure on the real VM with advice derived from the
+//! native structure in the pre-state (and, in "chain" mode, with the advice the VM itself produced
+//! while replaying the whole history) and compares every returned value and the memory layout.
+//! The SMT machine also reads every key through the host injector `adv.push_smtpeek`.
+//!
+//! Trusted: `Rpo256::{apply_permutation, hash_elements, merge}`, miden-crypto's `Smt`, `Mmr`,
+//! `MmrPeaks`, `MerkleStore` (the structures the property names as the reference).
+
+use crate::common::*;
+use mcx::{bfs, guard, json, Ctx, Tier, Value};
+use processor::{
+    AdviceInputs, ContextId, DefaultHost, ExecutionOptions, MemAdviceProvider, Process,
+    ProcessState, Program,
+};
+use rayon::prelude::*;
+use std::collections::{BTreeMap, HashMap};
+use std::sync::{Arc, Mutex, OnceLock};
+use vm_core::crypto::hash::{Rpo256, RpoDigest};
+use vm_core::crypto::merkle::{MerkleStore, Mmr, MmrPeaks, NodeIndex, Smt};
+use vm_core::{Felt, StarkField, Word, ZERO};
+
+type W = [u64; 4];
+type Proc = Process<DefaultHost<MemAdviceProvider>>;
+type Mem = BTreeMap<u64, W>;
+
+const LEVEL: &str = "model_checking";
+const MAX_CYCLES: u32 = 1 << 20;
+/// procedure locals of the root context live from this address upwards; not part of any contract
+const LOCALS_BASE: u64 = 1 << 30;
+
+// ------------------------------------------------------------------------------------------------
+// small helpers
+// ------------------------------------------------------------------------------------------------
+
+fn sentinels(n: usize) -> Vec<u64> {
+    (0..n as u64).map(|i| 9001 + i).collect()
+}
+
+fn word(w: W) -> Word {
+    [Felt::new(w[0]), Felt::new(w[1]), Felt::new(w[2]), Felt::new(w[3])]
+}
+
+fn unword(w: Word) -> W {
+    [w[0].as_int(), w[1].as_int(), w[2].as_int(), w[3].as_int()]
+}
+
+fn digest(w: W) -> RpoDigest {
+    RpoDigest::new(word(w))
+}
+
+fn undigest(d: RpoDigest) -> W {
+    unword(d.into())
+}
+
+/// appends a word in stack order (element 3 is on top) to a top-first stack listing
+fn push_w(v: &mut Vec<u64>, w: W) {
+    v.extend([w[3], w[2], w[1], w[0]]);
+}
+
+/// the word whose top element is at position `i` of a top-first stack listing
+fn word_at(stack: &[u64], i: usize) -> W {
+    [stack[i + 3], stack[i + 2], stack[i + 1], stack[i]]
+}
+
+fn hash_elems(v: &[u64]) -> W {
+    undigest(Rpo256::hash_elements(&felts(v)))
+}
+
+struct Hist(Mutex<BTreeMap<String, u64>>);
+
+impl Hist {
+    fn new() -> Self {
+        Hist(Mutex::new(BTreeMap::new()))
+    }
+    fn inc(&self, k: &str) {
+        *self.0.lock().unwrap().entry(k.to_string()).or_insert(0) += 1;
+    }
+    fn get(&self, k: &str) -> u64 {
+        *self.0.lock().unwrap().get(k).unwrap_or(&0)
+    }
+    fn json(&self) -> Value {
+        json!(*self.0.lock().unwrap())
+    }
+}
+
+fn program(src: &str) -> Arc<Program> {
+    static CACHE: OnceLock<Mutex<HashMap<String, Arc<Program>>>> = OnceLock::new();
+    let cache = CACHE.get_or_init(|| Mutex::new(HashMap::new()));
+    if let Some(p) = cache.lock().unwrap().get(src) {
+        return p.clone();
+    }
+    let p = Arc::new(assembler().compile(src).unwrap_or_else(|e| panic!("harness program must assemble: {e}\n{src}")));
+    cache.lock().unwrap().insert(src.to_string(), p.clone());
+    p
+}
+
+struct Obs {
+    /// full final stack, top first, or the Debug form of the execution error
+    stack: Result<Vec<u64>, String>,
+    /// root-context memory below the locals region (every address accessed at least once)
+    mem: Mem,
+    p: Proc,
+}
+
+fn exec(program: &Program, stack_top_first: &[u64], adv: AdviceInputs) -> Result<Obs, String> {
+    guard::catch(|| {
+        let opts = ExecutionOptions::new(Some(MAX_CYCLES), 64, false).expect("options");
+        let mut p = Process::new(program.kernel().clone(), stack_inputs(stack_top_first), host_from(adv), opts);
+        let r = p.execute(program);
+        let mem = p
+            .get_mem_state(ContextId::root())
+            .into_iter()
+            .filter(|(a, _)| *a < LOCALS_BASE)
+            .map(|(a, w)| (a, unword(w)))
+            .collect();
+        Obs { stack: r.map(|o| o.stack().to_vec()).map_err(|e| format!("{e:?}")), mem, p }
+    })
+}
+
+/// first address at which the two memories differ (an absent address is a zero word)
+fn mem_mismatch(exp: &Mem, got: &Mem) -> Option<String> {
+    let mut addrs: Vec<u64> = exp.keys().chain(got.keys()).copied().collect();
+    addrs.sort();
+    addrs.dedup();
+    for a in addrs {
+        let e = exp.get(&a).copied().unwrap_or([0; 4]);
+        let g = got.get(&a).copied().unwrap_or([0; 4]);
+        if e != g {
+            return Some(format!("mem[{a}] = {g:?}, expected {e:?}"));
+        }
+    }
+    None
+}
+
+/// reports through ctx.fail and prints when replaying
+struct Rep<'a> {
+    ctx: &'a Ctx,
+    verbose: bool,
+    case: Value,
+}
+
+impl Rep<'_> {
+    fn fail(&self, kind: &str, proc_: &str, class: &str, detail: String) {
+        if self.verbose {
+            println!("ORACLE FAILED: {kind} {proc_} [{class}] {detail}");
+        }
+        self.ctx.fail(json!({"kind": kind, "proc": proc_, "class": class}), format!("{proc_} [{class}] {detail} :: case={}", self.case), self.case.clone());
+    }
+    fn say(&self, s: impl FnOnce() -> String) {
+        if self.verbose {
+            println!("{}", s());
+        }
+    }
+}
+
+fn brief(r: &Result<Vec<u64>, String>) -> String {
+    match r {
+        Ok(s) => format!("Ok{s:?}"),
+        Err(e) => format!("Err({})", e.chars().take(240).collect::<String>()),
+    }
+}
+
+/// masm procedure that moves `n` words from the advice stack to memory starting at `ptr`; built
+/// from core instructions only so that no procedure under test is used to set a case up
+const LOADER: &str = "
+proc.load_words
+    dup neq.0
+    while.true
+        padw adv_loadw dup.5 mem_storew dropw
+        sub.1 swap add.1 swap
+        dup neq.0
+    end
+    drop drop
+end
+";
+
+fn u(case: &Value, k: &str) -> u64 {
+    case[k].as_u64().unwrap_or_else(|| panic!("replay case lacks integer field {k}"))
+}
+
+// ------------------------------------------------------------------------------------------------
+// truncate_stack
+// ------------------------------------------------------------------------------------------------
+
+fn check_truncate(ctx: &Ctx, mode: &str, k: u64, verbose: bool) {
+    let case = json!({"part": "truncate", "mode": mode, "k": k});
+    let rep = Rep { ctx, verbose, case };
+    let k = k as usize;
+    let pushes: Vec<u64> = (0..k as u64).map(|i| 5001 + i).collect();
+    let push_src: String = pushes.iter().map(|v| format!("push.{v} ")).collect();
+    // stack seen by truncate_stack, top first, and what lies below the frame
+    let (src, inputs, seen, below, above): (String, Vec<u64>, Vec<u64>, Vec<u64>, Vec<u64>) = match mode {
+        "inputs" => {
+            let inputs: Vec<u64> = (0..k as u64).map(|i| 1001 + i).collect();
+            ("use.std::sys begin exec.sys::truncate_stack end".into(), inputs.clone(), inputs, vec![], vec![])
+        }
+        "pushes" => {
+            let inputs: Vec<u64> = (0..16u64).map(|i| 1001 + i).collect();
+            let mut seen: Vec<u64> = pushes.iter().rev().copied().collect();
+            seen.extend(&inputs);
+            (format!("use.std::sys begin {push_src} exec.sys::truncate_stack end"), inputs, seen, vec![], vec![])
+        }
+        "call16" | "call21" => {
+            let d = if mode == "call16" { 16u64 } else { 21 };
+            let inputs: Vec<u64> = (0..d).map(|i| 1001 + i).collect();
+            let mut seen: Vec<u64> = pushes.iter().rev().copied().collect();
+            seen.extend(&inputs[..16]);
+            (
+                format!("use.std::sys proc.f {push_src} exec.sys::truncate_stack end begin call.f end"),
+                inputs.clone(),
+                seen,
+                inputs[16..].to_vec(),
+                vec![],
+            )
+        }
+        "exec_locals" => {
+            let inputs: Vec<u64> = (0..18u64).map(|i| 1001 + i).collect();
+            let mut seen: Vec<u64> = pushes.iter().rev().copied().collect();
+            seen.extend(&inputs);
+            (
+                format!("use.std::sys proc.g.3 push.4711 loc_store.0 push.4712 loc_store.2 {push_src} exec.sys::truncate_stack loc_load.0 loc_load.2 end begin exec.g end"),
+                inputs,
+                seen,
+                vec![],
+                vec![4712, 4711],
+            )
+        }
+        _ => panic!("unknown truncate mode {mode}"),
+    };
+    let mut expected = above;
+    expected.extend(&seen[..16]);
+    expected.extend(&below);
+    let prog = program(&src);
+    match exec(&prog, &inputs, AdviceInputs::default()) {
+        Err(p) => rep.fail("panic", "std::sys::truncate_stack", mode, guard::short_panic(&p)),
+        Ok(o) => {
+            rep.say(|| format!("depth seen by truncate_stack = {}; result {}; expected Ok{expected:?}", seen.len(), brief(&o.stack)));
+            match &o.stack {
+                Err(e) => rep.fail("unexpected_error", "std::sys::truncate_stack", mode, format!("depth {} -> {}", seen.len(), err_variant(e))),
+                Ok(s) if *s != expected => {
+                    let what = if s.len() != expected.len() { "wrong_depth" } else { "wrong_result" };
+                    rep.fail(what, "std::sys::truncate_stack", mode, format!("depth {} -> {s:?}, expected {expected:?}", seen.len()))
+                }
+                Ok(_) => {}
+            }
+        }
+    }
+}
+
+// ------------------------------------------------------------------------------------------------
+// memcopy
+// ------------------------------------------------------------------------------------------------
+
+const FILL_LO: u64 = 96;
+const FILL_HI: u64 = 120; // exclusive
+
+fn fill_word(a: u64) -> W {
+    [a * 10 + 1, a * 10 + 2, a * 10 + 3, a * 10 + 4]
+}
+
+/// returns the outcome class
+fn check_memcopy(ctx: &Ctx, n: u64, r: u64, w: u64, verbose: bool) -> &'static str {
+    let case = json!({"part": "memcopy", "n": n, "read_ptr": r, "write_ptr": w});
+    let rep = Rep { ctx, verbose, case };
+    let src = format!("use.std::mem {LOADER} begin exec.load_words exec.mem::memcopy end");
+    let prog = program(&src);
+    let sent = sentinels(16);
+    let mut stack = vec![FILL_HI - FILL_LO, FILL_LO, n, r, w];
+    stack.extend(&sent);
+    let orig: Mem = (FILL_LO..FILL_HI).map(|a| (a, fill_word(a))).collect();
+    let adv_stack: Vec<u64> = (FILL_LO..FILL_HI).flat_map(fill_word).collect();
+    let adv = AdviceInputs::default().with_stack(felts(&adv_stack));
+    let overlapping = n > 0 && r < w + n && w < r + n;
+    let class = if n == 0 {
+        "n=0"
+    } else if overlapping {
+        "overlapping"
+    } else {
+        "disjoint"
+    };
+    let o = match exec(&prog, &stack, adv) {
+        Err(p) => {
+            rep.fail("panic", "std::mem::memcopy", class, guard::short_panic(&p));
+            return "panic";
+        }
+        Ok(o) => o,
+    };
+    rep.say(|| format!("memcopy n={n} read_ptr={r} write_ptr={w} ({class}): stack {}; memory {:?}", brief(&o.stack), o.mem));
+    match &o.stack {
+        Err(e) => {
+            rep.fail("unexpected_error", "std::mem::memcopy", class, err_variant(e));
+            return "error";
+        }
+        Ok(s) if *s != sent => {
+            rep.fail("wrong_stack", "std::mem::memcopy", class, format!("stack {s:?}, expected the 16 elements below the operands {sent:?}"));
+            return "wrong_stack";
+        }
+        Ok(_) => {}
+    }
+    if overlapping {
+        // the documentation does not define the content of the destination; only the frame condition
+        let mut exp = orig.clone();
+        let mut got = o.mem.clone();
+        for a in w..w + n {
+            exp.remove(&a);
+            got.remove(&a);
+        }
+        if let Some(d) = mem_mismatch(&exp, &got) {
+            rep.fail("write_outside_destination", "std::mem::memcopy", class, d);
+            return "frame_violated";
+        }
+        let memmove = (0..n).all(|i| o.mem.get(&(w + i)) == Some(&fill_word(r + i)));
+        if memmove {
+            "overlap_result_as_memmove"
+        } else {
+            "overlap_result_smeared"
+        }
+    } else {
+        let mut exp = orig.clone();
+        for i in 0..n {
+            exp.insert(w + i, fill_word(r + i));
+        }
+        rep.say(|| format!("expected memory {exp:?}"));
+        if let Some(d) = mem_mismatch(&exp, &o.mem) {
+            rep.fail("wrong_memory", "std::mem::memcopy", class, d);
+            return "wrong_memory";
+        }
+        "ok"
+    }
+}
+
+// ------------------------------------------------------------------------------------------------
+// pipe_*
+// ------------------------------------------------------------------------------------------------
+
+const ADV_TAIL: u64 = 777_777;
+
+fn pipe_data(n_words: u64) -> Vec<u64> {
+    (0..n_words * 4).map(|i| 30_001 + i).collect()
+}
+
+fn pipe_mem(ptr: u64, data: &[u64]) -> Mem {
+    data.chunks(4).enumerate().map(|(i, c)| (ptr + i as u64, [c[0], c[1], c[2], c[3]])).collect()
+}
+
+fn check_pipe_words(ctx: &Ctx, n: u64, ptr: u64, verbose: bool) -> &'static str {
+    const PROC: &str = "std::mem::pipe_words_to_memory";
+    let case = json!({"part": "pipe_words", "n": n, "ptr": ptr});
+    let rep = Rep { ctx, verbose, case };
+    let class = if n % 2 == 0 { "even" } else { "odd" };
+    let prog = program("use.std::mem begin exec.mem::pipe_words_to_memory adv_push.1 end");
+    let sent = sentinels(16);
+    let mut stack = vec![n, ptr];
+    stack.extend(&sent);
+    let data = pipe_data(n);
+    let mut adv_stack = data.clone();
+    adv_stack.push(ADV_TAIL);
+    let mut expected = vec![ADV_TAIL];
+    push_w(&mut expected, hash_elems(&data));
+    expected.push(ptr + n);
+    expected.extend(&sent);
+    match exec(&prog, &stack, AdviceInputs::default().with_stack(felts(&adv_stack))) {
+        Err(p) => {
+            rep.fail("panic", PROC, class, guard::short_panic(&p));
+            "panic"
+        }
+        Ok(o) => {
+            rep.say(|| format!("n={n} ptr={ptr}: stack {}\nexpected Ok{expected:?} (= [next advice element, Rpo256::hash_elements(data), ptr+n, rest])\nmemory {:?}", brief(&o.stack), o.mem));
+            match &o.stack {
+                Err(e) => {
+                    rep.fail("unexpected_error", PROC, class, err_variant(e));
+                    "error"
+                }
+                Ok(s) if *s != expected => {
+                    let what = if s.len() == expected.len() && s[1..5] != expected[1..5] && s[5..] == expected[5..] && s[0] == expected[0] {
+                        "wrong_hash"
+                    } else {
+                        "wrong_stack"
+                    };
+                    rep.fail(what, PROC, class, format!("stack {s:?}, expected {expected:?}"));
+                    what
+                }
+                Ok(_) => match mem_mismatch(&pipe_mem(ptr, &data), &o.mem) {
+                    Some(d) => {
+                        rep.fail("wrong_memory", PROC, class, d);
+                        "wrong_memory"
+                    }
+                    None => "ok",
+                },
+            }
+        }
+    }
+}
+
+fn check_pipe_double(ctx: &Ctx, n: u64, ptr: u64, init: &str, verbose: bool) -> &'static str {
+    const PROC: &str = "std::mem::pipe_double_words_to_memory";
+    let case = json!({"part": "pipe_double", "n": n, "ptr": ptr, "init": init});
+    let rep = Rep { ctx, verbose, case };
+    let class = if n == 0 { "n=0(outside contract)" } else { init };
+    let prog = program("use.std::mem begin exec.mem::pipe_double_words_to_memory adv_push.1 end");
+    let sent = sentinels(16);
+    // hasher state: elements 0..4 capacity (A), 4..8 (B), 8..12 (C)
+    let state0: Vec<u64> = match init {
+        "zero" => vec![0; 12],
+        "distinct" => (0..12u64).map(|i| 60_001 + i).collect(),
+        _ => panic!("unknown init {init}"),
+    };
+    let mut stack: Vec<u64> = state0.iter().rev().copied().collect();
+    stack.extend([ptr, ptr + n]);
+    stack.extend(&sent);
+    let data = pipe_data(n);
+    let mut adv_stack = data.clone();
+    adv_stack.push(ADV_TAIL);
+    let mut st: [Felt; 12] = core::array::from_fn(|i| Felt::new(state0[i]));
+    for blk in data.chunks(8) {
+        for (i, v) in blk.iter().enumerate() {
+            st[4 + i] = Felt::new(*v);
+        }
+        Rpo256::apply_permutation(&mut st);
+    }
+    let mut expected = vec![ADV_TAIL];
+    expected.extend(st.iter().rev().map(|x| x.as_int()));
+    expected.push(ptr + n);
+    expected.extend(&sent);
+    if init == "zero" && n > 0 {
+        // cross-check of the reference construction against the library's sponge
+        assert_eq!(hash_elems(&data), [st[4].as_int(), st[5].as_int(), st[6].as_int(), st[7].as_int()], "reference sponge disagrees with Rpo256::hash_elements");
+    }
+    match exec(&prog, &stack, AdviceInputs::default().with_stack(felts(&adv_stack))) {
+        Err(p) => {
+            rep.fail("panic", PROC, class, guard::short_panic(&p));
+            "panic"
+        }
+        Ok(o) => {
+            rep.say(|| format!("n={n} ptr={ptr} init={init}: stack {}\nexpected Ok{expected:?}\nmemory {:?}", brief(&o.stack), o.mem));
+            if n == 0 {
+                // "words must be positive": outside the contract; frame conditions only
+                return match &o.stack {
+                    Err(_) => "n=0:error",
+                    Ok(s) => {
+                        if s.len() != expected.len() || s[14..] != expected[14..] || s[0] != ADV_TAIL {
+                            rep.fail("frame_violated", PROC, class, format!("stack {s:?}"));
+                        } else if mem_mismatch(&Mem::new(), &o.mem).is_some() {
+                            rep.fail("write_outside_destination", PROC, class, format!("{:?}", o.mem));
+                        }
+                        "n=0:returns"
+                    }
+                };
+            }
+            match &o.stack {
+                Err(e) => {
+                    rep.fail("unexpected_error", PROC, class, err_variant(e));
+                    "error"
+                }
+                Ok(s) if *s != expected => {
+                    rep.fail("wrong_stack", PROC, class, format!("stack {s:?}, expected {expected:?}"));
+                    "wrong_stack"
+                }
+                Ok(_) => match mem_mismatch(&pipe_mem(ptr, &data), &o.mem) {
+                    Some(d) => {
+                        rep.fail("wrong_memory", PROC, class, d);
+                        "wrong_memory"
+                    }
+                    None => "ok",
+                },
+            }
+        }
+    }
+}
+
+/// com: "ok", "bad0".."bad3" (one element of the commitment off by one), "other" (hash of other data)
+fn check_pipe_preimage(ctx: &Ctx, n: u64, ptr: u64, com: &str, verbose: bool) -> String {
+    const PROC: &str = "std::mem::pipe_preimage_to_memory";
+    let case = json!({"part": "pipe_preimage", "n": n, "ptr": ptr, "com": com});
+    let rep = Rep { ctx, verbose, case };
+    let parity = if n % 2 == 0 { "even" } else { "odd" };
+    let class = format!("{parity},commitment={}", if com == "ok" { "correct" } else { "wrong" });
+    let prog = program("use.std::mem begin exec.mem::pipe_preimage_to_memory adv_push.1 end");
+    let sent = sentinels(16);
+    let data = pipe_data(n);
+    let mut c = hash_elems(&data);
+    match com {
+        "ok" => {}
+        "other" => {
+            let mut d2 = data.clone();
+            d2.push(1);
+            c = hash_elems(&d2);
+        }
+        b if b.starts_with("bad") => {
+            let i: usize = b[3..].parse().expect("badN");
+            c[i] = (c[i] + 1) % P;
+        }
+        _ => panic!("unknown com {com}"),
+    }
+    let mut stack = vec![n, ptr];
+    push_w(&mut stack, c);
+    stack.extend(&sent);
+    let mut adv_stack = data.clone();
+    adv_stack.push(ADV_TAIL);
+    let mut expected = vec![ADV_TAIL, ptr + n];
+    expected.extend(&sent);
+    match exec(&prog, &stack, AdviceInputs::default().with_stack(felts(&adv_stack))) {
+        Err(p) => {
+            rep.fail("panic", PROC, &class, guard::short_panic(&p));
+            "panic".into()
+        }
+        Ok(o) => {
+            rep.say(|| format!("n={n} ptr={ptr} com={com}: stack {}\nexpected {}\nmemory {:?}", brief(&o.stack), if com == "ok" { format!("Ok{expected:?}") } else { "an error".into() }, o.mem));
+            match (&o.stack, com == "ok") {
+                (Err(e), true) => {
+                    rep.fail("unexpected_error", PROC, &class, err_variant(e));
+                    "error".into()
+                }
+                (Err(e), false) => format!("rejected:{}", err_variant(e)),
+                (Ok(s), false) => {
+                    rep.fail("wrong_commitment_accepted", PROC, &class, format!("stack {s:?}"));
+                    "accepted_wrong".into()
+                }
+                (Ok(s), true) if *s != expected => {
+                    rep.fail("wrong_stack", PROC, &class, format!("stack {s:?}, expected {expected:?}"));
+                    "wrong_stack".into()
+                }
+                (Ok(_), true) => match mem_mismatch(&pipe_mem(ptr, &data), &o.mem) {
+                    Some(d) => {
+                        rep.fail("wrong_memory", PROC, &class, d);
+                        "wrong_memory".into()
+                    }
+                    None => "ok".into(),
+                },
+            }
+        }
+    }
+}
+
+// ------------------------------------------------------------------------------------------------
+// mmr: arithmetic helpers
+// ------------------------------------------------------------------------------------------------
+
+/// Some(expected stack prefix) or None when the input must be rejected
+fn mmr_arith_ref(proc_: &str, x: u64) -> Option<Vec<u64>> {
+    match proc_ {
+        "u32unchecked_trailing_ones" => Some(vec![(x as u32).trailing_ones() as u64]),
+        "trailing_ones" => Some(vec![x.trailing_ones() as u64]),
+        "ilog2_checked" => {
+            if x == 0 {
+                None
+            } else {
+                let l = 63 - x.leading_zeros() as u64;
+                Some(vec![l, 1 << l])
+            }
+        }
+        "num_leaves_to_num_peaks" => Some(vec![x.count_ones() as u64]),
+        "num_peaks_to_message_size" => {
+            let m = x.max(16);
+            Some(vec![m + m % 2])
+        }
+        _ => panic!("unknown mmr helper {proc_}"),
+    }
+}
+
+fn check_mmr_arith(ctx: &Ctx, proc_: &str, x: u64, verbose: bool) -> &'static str {
+    let case = json!({"part": "mmr_arith", "proc": proc_, "x": x});
+    let rep = Rep { ctx, verbose, case };
+    let full = format!("std::collections::mmr::{proc_}");
+    let class = if x == 0 {
+        "x=0"
+    } else if x & (x - 1) == 0 {
+        "x=2^k"
+    } else if x & (x + 1) == 0 {
+        "x=2^k-1"
+    } else {
+        "other"
+    };
+    let prog = program(&format!("use.std::collections::mmr begin exec.mmr::{proc_} end"));
+    let sent = sentinels(16);
+    let mut stack = vec![x];
+    stack.extend(&sent);
+    let reference = mmr_arith_ref(proc_, x);
+    match exec(&prog, &stack, AdviceInputs::default()) {
+        Err(p) => {
+            rep.fail("panic", &full, class, guard::short_panic(&p));
+            "panic"
+        }
+        Ok(o) => {
+            rep.say(|| format!("{proc_}({x}) -> {}; reference {reference:?} followed by {sent:?}", brief(&o.stack)));
+            match (&o.stack, reference) {
+                (Err(_), None) => "rejected",
+                (Ok(s), None) => {
+                    rep.fail("accepted_invalid", &full, class, format!("x={x} -> {s:?}"));
+                    "accepted_invalid"
+                }
+                (Err(e), Some(_)) => {
+                    rep.fail("unexpected_error", &full, class, format!("x={x} -> {}", err_variant(e)));
+                    "error"
+                }
+                (Ok(s), Some(mut exp)) => {
+                    exp.extend(&sent);
+                    if *s != exp {
+                        rep.fail("wrong_result", &full, class, format!("x={x} -> {s:?}, expected {exp:?}"));
+                        "wrong_result"
+                    } else {
+                        "ok"
+                    }
+                }
+            }
+        }
+    }
+}
+
+fn mmr_arith_inputs(proc_: &str, tier: Tier) -> Vec<u64> {
+    let mut v: Vec<u64> = vec![];
+    match proc_ {
+        "num_peaks_to_message_size" => v.extend(0..=tier.pick(40, 200)),
+        "u32unchecked_trailing_ones" | "ilog2_checked" => {
+            v.extend(0..=tier.pick(256, 4096));
+            for k in 0..32u32 {
+                v.extend([1u64 << k, (1u64 << k) - 1, (1u64 << k) + 1, ((1u64 << k) - 1) ^ 0xFFFF_FFFF, (1u64 << k) | 0x8000_0000]);
+                for j in 0..k {
+                    v.push((1u64 << k) | (1u64 << j));
+                    v.push(((1u64 << k) - 1) & !(1u64 << j));
+                }
+            }
+            v.retain(|x| *x <= u32::MAX as u64);
+        }
+        _ => {
+            v.extend(0..=tier.pick(256, 4096));
+            for k in 0..64u32 {
+                v.extend([1u64 << k, (1u64 << k) - 1, (1u64 << k) + 1]);
+                for j in 0..k {
+                    v.push((1u64 << k) | (1u64 << j));
+                    v.push(((1u64 << k) - 1) & !(1u64 << j));
+                }
+            }
+            v.retain(|x| *x < P);
+        }
+    }
+    v.sort();
+    v.dedup();
+    v
+}
+
+// ------------------------------------------------------------------------------------------------
+// mmr on peak lists (shared by the synthetic-peaks enumeration and the state machine)
+// ------------------------------------------------------------------------------------------------
+
+const MMR_PTR: u64 = 1000;
+const MMR_PTR2: u64 = 2000;
+const CHAIN_OUT: u64 = 5000;
+
+fn mmr_layout(ptr: u64, num_leaves: u64, peaks: &[W]) -> Mem {
+    let mut m = Mem::new();
+    m.insert(ptr, [num_leaves, 0, 0, 0]);
+    for (i, p) in peaks.iter().enumerate() {
+        m.insert(ptr + 1 + i as u64, *p);
+    }
+    m
+}
+
+fn native_peaks(num_leaves: u64, peaks: &[W]) -> MmrPeaks {
+    MmrPeaks::new(num_leaves as usize, peaks.iter().map(|p| digest(*p)).collect()).expect("peak count must match popcount(num_leaves)")
+}
+
+/// advice-map value `mmr::unpack` expects / `mmr::pack` produces: [num_leaves,0,0,0] ‖ padded peaks
+fn mmr_map_value(num_leaves: u64, peaks: &[W]) -> Vec<u64> {
+    let mut v = vec![num_leaves, 0, 0, 0];
+    v.extend(ints(&native_peaks(num_leaves, peaks).flatten_and_pad_peaks()));
+    v
+}
+
+/// loader arguments + advice stack that put an MMR at `ptr`
+fn mmr_loader(ptr: u64, num_leaves: u64, peaks: &[W]) -> (Vec<u64>, Vec<u64>) {
+    let mut adv = vec![num_leaves, 0, 0, 0];
+    for p in peaks {
+        adv.extend(p);
+    }
+    (vec![1 + peaks.len() as u64, ptr], adv)
+}
+
+fn class_of_leaves(n: u64) -> String {
+    let peaks = n.count_ones();
+    format!("peaks{}", if peaks == 0 { "=0".to_string() } else if peaks <= 16 { "<=16".into() } else if peaks % 2 == 1 { ">16,odd".into() } else { ">16,even".into() })
+}
+
+/// reference for `add` written from the documentation: merge the new element with the last peak
+/// while the number of leaves has a trailing one bit
+fn ref_add(num_leaves: u64, peaks: &[W], el: W) -> Vec<W> {
+    let mut out = peaks.to_vec();
+    let mut cur = el;
+    let mut n = num_leaves;
+    while n & 1 == 1 {
+        let left = out.pop().expect("peak");
+        cur = undigest(Rpo256::merge(&[digest(left), digest(cur)]));
+        n >>= 1;
+    }
+    out.push(cur);
+    out
+}
+
+/// op: "pack", "unpack", "unpack_bad", "pack_unpack", "add". `store`: Merkle store given to the VM.
+/// Returns the outcome class and, for "add", the final process (for store inspection).
+fn check_mmr_op(rep: &Rep, op: &str, num_leaves: u64, peaks: &[W], el: W, store: MerkleStore) -> (&'static str, Option<Obs>) {
+    let full = format!("std::collections::mmr::{}", if op == "unpack_bad" { "unpack" } else { op });
+    let class = if op == "unpack_bad" { "wrong_hash".to_string() } else { class_of_leaves(num_leaves) };
+    let hash = undigest(native_peaks(num_leaves, peaks).hash_peaks());
+    let map_value = mmr_map_value(num_leaves, peaks);
+    let padded_words = (map_value.len() / 4 - 1) as u64;
+    let (ld_args, ld_adv) = mmr_loader(MMR_PTR, num_leaves, peaks);
+    let (src, mut stack, adv_stack, adv_map, exp_top, exp_mem): (String, Vec<u64>, Vec<u64>, Vec<(RpoDigest, Vec<Felt>)>, Vec<u64>, Mem) = match op {
+        "pack" => {
+            let mut st = ld_args.clone();
+            st.push(MMR_PTR);
+            let mut top = vec![];
+            push_w(&mut top, hash);
+            (format!("use.std::collections::mmr {LOADER} begin exec.load_words exec.mmr::pack end"), st, ld_adv, vec![], top, mmr_layout(MMR_PTR, num_leaves, peaks))
+        }
+        "unpack" | "unpack_bad" => {
+            let mut st = vec![];
+            push_w(&mut st, hash);
+            st.push(MMR_PTR);
+            let mut val = map_value.clone();
+            if op == "unpack_bad" {
+                // corrupt the first element of the first peak word (as the repository's own test does)
+                val[4] = (val[4] + 1) % P;
+            }
+            ("use.std::collections::mmr begin exec.mmr::unpack end".to_string(), st, vec![], vec![(digest(hash), felts(&val))], vec![], mmr_layout(MMR_PTR, num_leaves, peaks))
+        }
+        "pack_unpack" => {
+            let mut st = ld_args.clone();
+            st.extend([MMR_PTR, MMR_PTR2]);
+            let mut m = mmr_layout(MMR_PTR, num_leaves, peaks);
+            m.extend(mmr_layout(MMR_PTR2, num_leaves, peaks));
+            (format!("use.std::collections::mmr {LOADER} begin exec.load_words exec.mmr::pack exec.mmr::unpack end"), st, ld_adv, vec![], vec![], m)
+        }
+        "add" => {
+            let mut st = ld_args.clone();
+            push_w(&mut st, el);
+            st.push(MMR_PTR);
+            let new_peaks = ref_add(num_leaves, peaks, el);
+            (format!("use.std::collections::mmr {LOADER} begin exec.load_words exec.mmr::add end"), st, ld_adv, vec![], vec![], mmr_layout(MMR_PTR, num_leaves + 1, &new_peaks))
+        }
+        _ => panic!("unknown mmr op {op}"),
+    };
+    let sent = sentinels(16);
+    stack.extend(&sent);
+    let mut expected = exp_top;
+    expected.extend(&sent);
+    let prog = program(&src);
+    let adv = AdviceInputs::default().with_stack(felts(&adv_stack)).with_map(adv_map).with_merkle_store(store);
+    let o = match exec(&prog, &stack, adv) {
+        Err(p) => {
+            rep.fail("panic", &full, &class, guard::short_panic(&p));
+            return ("panic", None);
+        }
+        Ok(o) => o,
+    };
+    rep.say(|| format!("{op} num_leaves={num_leaves} peaks={peaks:?}: stack {}\nexpected {}\nmemory {:?}\nexpected memory {exp_mem:?} (+ zero padding)", brief(&o.stack), if op == "unpack_bad" { "an error".into() } else { format!("Ok{expected:?}") }, o.mem));
+    if op == "unpack_bad" {
+        return match &o.stack {
+            Err(_) => ("rejected", None),
+            Ok(s) => {
+                rep.fail("wrong_commitment_accepted", &full, &class, format!("stack {s:?}"));
+                ("accepted_wrong", None)
+            }
+        };
+    }
+    match &o.stack {
+        Err(e) => {
+            rep.fail("unexpected_error", &full, &class, format!("num_leaves={num_leaves}: {}", err_variant(e)));
+            return ("error", None);
+        }
+        Ok(s) if *s != expected => {
+            let what = if op == "pack" { "wrong_hash" } else { "wrong_stack" };
+            rep.fail(what, &full, &class, format!("num_leaves={num_leaves}: stack {s:?}, expected {expected:?}"));
+            return (what, None);
+        }
+        Ok(_) => {}
+    }
+    if let Some(d) = mem_mismatch(&exp_mem, &o.mem) {
+        rep.fail("wrong_memory", &full, &class, format!("num_leaves={num_leaves}: {d}"));
+        return ("wrong_memory", None);
+    }
+    if op == "unpack" || op == "pack_unpack" {
+        // the padding words are written as well
+        let base = if op == "unpack" { MMR_PTR } else { MMR_PTR2 };
+        if let Some(a) = (base..=base + padded_words).find(|a| !o.mem.contains_key(a)) {
+            rep.fail("wrong_memory", &full, &class, format!("num_leaves={num_leaves}: address {a} was never written (padding)"));
+            return ("wrong_memory", None);
+        }
+    }
+    if op == "pack" || op == "pack_unpack" {
+        let host = o.p.host.borrow();
+        let got = host.advice_provider().map().get(&digest(hash)).map(|v| ints(v));
+        if got.as_deref() != Some(&map_value[..]) {
+            drop(host);
+            rep.fail("wrong_advice_map", &full, &class, format!("num_leaves={num_leaves}: advice map entry under the hash is {got:?}, expected {map_value:?}"));
+            return ("wrong_advice_map", None);
+        }
+    }
+    ("ok", Some(o))
+}
+
+fn synth_peaks(num_leaves: u64) -> Vec<W> {
+    (0..num_leaves.count_ones() as u64).map(|i| [70_001 + i, 70_101 + i, 70_201 + i, 70_301 + i]).collect()
+}
+
+const SYNTH_EL: W = [81, 82, 83, 84];
+
+fn check_mmr_synth(ctx: &Ctx, op: &str, num_leaves: u64, verbose: bool) -> &'static str {
+    let case = json!({"part": "mmr_synth", "op": op, "num_leaves": num_leaves});
+    let rep = Rep { ctx, verbose, case };
+    check_mmr_op(&rep, op, num_leaves, &synth_peaks(num_leaves), SYNTH_EL, MerkleStore::new()).0
+}
+
+fn mmr_synth_leaf_counts(tier: Tier) -> Vec<u64> {
+    let mut v: Vec<u64> = (0..=tier.pick(40u64, 300)).collect();
+    for k in 6..=tier.pick(20u32, 31) {
+        v.extend([(1u64 << k) - 1, 1u64 << k, (1u64 << k) + 1]);
+    }
+    v.extend([(1u64 << 32) - 1, 1u64 << 32, (1u64 << 32) + 1]);
+    v.sort();
+    v.dedup();
+    v
+}
+
+// ------------------------------------------------------------------------------------------------
+// SMT machine
+// ------------------------------------------------------------------------------------------------
+
+#[derive(Clone, Copy, PartialEq, Eq, Debug)]
+enum SAct {
+    Set(u8, u8),
+    Get(u8),
+    /// `adv.push_smtpeek adv_push.4`: the value the host's SMT injector reports for the key
+    Peek(u8),
+}
+
+impl SAct {
+    fn to_json(self) -> Value {
+        match self {
+            SAct::Set(k, v) => json!({"set": [k, v]}),
+            SAct::Get(k) => json!({"get": k}),
+            SAct::Peek(k) => json!({"peek": k}),
+        }
+    }
+    fn from_json(v: &Value) -> SAct {
+        if let Some(a) = v["set"].as_array() {
+            SAct::Set(a[0].as_u64().unwrap() as u8, a[1].as_u64().unwrap() as u8)
+        } else if let Some(k) = v["peek"].as_u64() {
+            SAct::Peek(k as u8)
+        } else {
+            SAct::Get(v["get"].as_u64().expect("smt action") as u8)
+        }
+    }
+}
+
+fn acts_json(a: &[SAct]) -> Value {
+    Value::Array(a.iter().map(|x| x.to_json()).collect())
+}
+
+fn acts_from(v: &Value) -> Vec<SAct> {
+    v.as_array().expect("action list").iter().map(SAct::from_json).collect()
+}
+
+struct SmtCfg {
+    keys: Vec<W>,
+    vals: Vec<W>,
+}
+
+/// keys 0 and 1 share the leaf index (element 3 of the key word); key 2 lives in another leaf;
+/// key 3 (thorough) is the sibling leaf of key 2. Values are opaque payload (seed-dependent).
+fn smt_cfg(nkeys: usize, seed: u64) -> SmtCfg {
+    let s = seed.wrapping_mul(0x9E37_79B9).wrapping_add(seed >> 7) % (1 << 40);
+    let keys = [[101, 102, 103, 42], [1, 12, 3, 42], [105, 106, 107, 77], [42, 77, 76, 76]];
+    SmtCfg {
+        keys: keys[..nkeys].to_vec(),
+        vals: vec![[0; 4], [s + 1, s + 2, s + 3, s + 4], [s + 5, s + 6, s + 7, s + 8]],
+    }
+}
+
+impl SmtCfg {
+    fn actions(&self) -> Vec<SAct> {
+        let mut v = vec![];
+        for k in 0..self.keys.len() as u8 {
+            v.push(SAct::Get(k));
+        }
+        for k in 0..self.keys.len() as u8 {
+            v.push(SAct::Peek(k));
+        }
+        for k in 0..self.keys.len() as u8 {
+            for x in 0..self.vals.len() as u8 {
+                v.push(SAct::Set(k, x));
+            }
+        }
+        v
+    }
+    fn key(&self, a: SAct) -> RpoDigest {
+        match a {
+            SAct::Set(k, _) | SAct::Get(k) | SAct::Peek(k) => digest(self.keys[k as usize]),
+        }
+    }
+    /// applies the action to the native tree; returns (value on the stack, root afterwards)
+    fn apply(&self, smt: &mut Smt, a: SAct) -> (W, W) {
+        match a {
+            SAct::Set(k, v) => {
+                let old = smt.insert(digest(self.keys[k as usize]), word(self.vals[v as usize]));
+                (unword(old), undigest(smt.root()))
+            }
+            SAct::Get(k) | SAct::Peek(k) => (unword(smt.get_value(&digest(self.keys[k as usize]))), undigest(smt.root())),
+        }
+    }
+    /// operand class of the action in the given pre-state and whether the documentation of
+    /// smt.masm defines the outcome ("unimplemented" cases are not defined)
+    fn class(&self, pre: &Smt, a: SAct) -> (&'static str, bool) {
+        let key = self.key(a);
+        let entries = pre.get_leaf(&key).into_entries();
+        let same = entries.len() == 1 && entries[0].0 == key;
+        match (a, entries.len()) {
+            (SAct::Get(_), 0) => ("get:leaf_empty", true),
+            (SAct::Get(_), 1) if same => ("get:leaf_single,same_key", true),
+            (SAct::Get(_), 1) => ("get:leaf_single,other_key", true),
+            (SAct::Get(_), _) => ("get:leaf_multiple(unimplemented)", false),
+            (SAct::Peek(_), 0) => ("peek:leaf_empty", true),
+            (SAct::Peek(_), 1) if same => ("peek:leaf_single,same_key", true),
+            (SAct::Peek(_), 1) => ("peek:leaf_single,other_key", true),
+            (SAct::Peek(_), _) => ("peek:leaf_multiple", true),
+            (SAct::Set(_, 0), 0) => ("set:leaf_empty,value_empty", true),
+            (SAct::Set(..), 0) => ("set:leaf_empty,insert", true),
+            (SAct::Set(_, 0), 1) if same => ("set:leaf_single,remove", true),
+            (SAct::Set(_, 0), 1) => ("set:leaf_single,other_key,value_empty", true),
+            (SAct::Set(..), 1) if same => ("set:leaf_single,update", true),
+            (SAct::Set(..), 1) => ("set:leaf_single,other_key,insert(unimplemented)", false),
+            (SAct::Set(..), _) => ("set:leaf_multiple(unimplemented)", false),
+        }
+    }
+}
+
+fn smt_advice(smt: &Smt) -> AdviceInputs {
+    let store = MerkleStore::from(smt);
+    let map: Vec<(RpoDigest, Vec<Felt>)> = smt.leaves().map(|(_, leaf)| (leaf.hash(), leaf.to_elements())).collect();
+    AdviceInputs::default().with_merkle_store(store).with_map(map)
+}
+
+const SMT_OUT: u64 = 500;
+
+/// one program per pattern of action kinds; operands come from the stack inputs:
+/// [R, operands of action 1, operands of action 2, …, sentinels]; results go to memory
+fn smt_program(acts: &[SAct]) -> Arc<Program> {
+    let mut src = String::from("use.std::collections::smt begin ");
+    for (i, a) in acts.iter().enumerate() {
+        let out = SMT_OUT + 2 * i as u64;
+        src += match a {
+            SAct::Set(..) => "movupw.2 movupw.2 exec.smt::set ",
+            SAct::Get(..) => "swapw exec.smt::get ",
+            SAct::Peek(..) => "swapw adv.push_smtpeek adv_push.4 swapw dropw ",
+        };
+        src += &format!("push.{out} mem_storew dropw push.{} mem_storew ", out + 1);
+    }
+    src += "end";
+    program(&src)
+}
+
+/// Runs `acts` in ONE VM execution starting from the advice derived from the native tree reached by
+/// `base`, compares every returned (value, root) pair with the native tree. `mode` is only a label.
+fn smt_eval(ctx: &Ctx, cfg: &SmtCfg, hist: &Hist, mode: &str, base: &[SAct], acts: &[SAct], verbose: bool) {
+    let case = json!({"part": "smt", "mode": mode, "nkeys": cfg.keys.len(), "base": acts_json(base), "acts": acts_json(acts)});
+    let rep = Rep { ctx, verbose, case };
+    let mut native = Smt::new();
+    for a in base {
+        cfg.apply(&mut native, *a);
+    }
+    let adv = smt_advice(&native);
+    let sent = sentinels(16);
+    let mut stack = vec![];
+    push_w(&mut stack, undigest(native.root()));
+    for a in acts {
+        match *a {
+            SAct::Set(k, v) => {
+                push_w(&mut stack, cfg.vals[v as usize]);
+                push_w(&mut stack, cfg.keys[k as usize]);
+            }
+            SAct::Get(k) | SAct::Peek(k) => push_w(&mut stack, cfg.keys[k as usize]),
+        }
+    }
+    stack.extend(&sent);
+    // native expectations
+    let mut expect = vec![];
+    for a in acts {
+        let (class, specified) = cfg.class(&native, *a);
+        let (val, root) = cfg.apply(&mut native, *a);
+        expect.push((class, specified, val, root));
+    }
+    let prog = smt_program(acts);
+    let o = match exec(&prog, &stack, adv) {
+        Err(p) => {
+            rep.fail("panic", "std::collections::smt", mode, guard::short_panic(&p));
+            hist.inc(&format!("{mode}:panic"));
+            return;
+        }
+        Ok(o) => o,
+    };
+    rep.say(|| format!("keys {:?}\nvalues {:?}\nfinal stack {}\nresult memory {:?}", cfg.keys, cfg.vals, brief(&o.stack), o.mem));
+    for (i, (class, specified, val, root)) in expect.iter().enumerate() {
+        let proc_ = if class.starts_with("get") {
+            "std::collections::smt::get"
+        } else if class.starts_with("peek") {
+            "adv.push_smtpeek"
+        } else {
+            "std::collections::smt::set"
+        };
+        let out = SMT_OUT + 2 * i as u64;
+        let got = (o.mem.get(&out), o.mem.get(&(out + 1)));
+        rep.say(|| format!("action {i} {:?} [{class}]: VM (value, root) = {got:?}; native = ({val:?}, {root:?})", acts[i]));
+        match got {
+            (Some(v), Some(r)) => {
+                if v != val {
+                    rep.fail("wrong_value", proc_, class, format!("action {i}: value {v:?}, native {val:?}"));
+                    hist.inc(&format!("{mode}:wrong:{class}"));
+                    return;
+                }
+                if r != root {
+                    rep.fail("wrong_root", proc_, class, format!("action {i}: root {r:?}, native {root:?}"));
+                    hist.inc(&format!("{mode}:wrong:{class}"));
+                    return;
+                }
+                hist.inc(&format!("{mode}:agree:{class}"));
+            }
+            _ => {
+                // the execution stopped in this action
+                let e = match &o.stack {
+                    Err(e) => err_variant(e),
+                    Ok(_) => "no output written".into(),
+                };
+                if *specified {
+                    rep.fail("unexpected_error", proc_, class, format!("action {i} failed: {e}"));
+                    hist.inc(&format!("{mode}:failed:{class}"));
+                } else {
+                    hist.inc(&format!("{mode}:unspecified_failed:{class}"));
+                }
+                if i + 1 < acts.len() {
+                    hist.inc(&format!("{mode}:chain_cut_short"));
+                }
+                return;
+            }
+        }
+    }
+    // all actions produced output: stack must be [R_final, sentinels], memory only the outputs
+    let mut exp_stack = vec![];
+    push_w(&mut exp_stack, expect.last().map(|e| e.3).unwrap_or(undigest(Smt::new().root())));
+    exp_stack.extend(&sent);
+    match &o.stack {
+        Ok(s) if *s == exp_stack => {}
+        other => rep.fail("wrong_stack", "std::collections::smt", mode, format!("final stack {}, expected {exp_stack:?}", brief(other))),
+    }
+    if let Some(a) = o.mem.keys().find(|a| **a < SMT_OUT || **a >= SMT_OUT + 2 * acts.len() as u64) {
+        rep.fail("unexpected_memory_write", "std::collections::smt", mode, format!("address {a}"));
+    }
+}
+
+#[derive(Clone)]
+struct SState {
+    hist: Vec<SAct>,
+    smt: Smt,
+}
+
+struct SmtModel<'a> {
+    ctx: &'a Ctx,
+    cfg: SmtCfg,
+    hist: Hist,
+}
+
+impl bfs::Model for SmtModel<'_> {
+    type State = SState;
+    type Action = SAct;
+    fn init(&self) -> Vec<SState> {
+        vec![SState { hist: vec![], smt: Smt::new() }]
+    }
+    fn actions(&self, _: &SState) -> Vec<SAct> {
+        self.cfg.actions()
+    }
+    fn step(&self, s: &SState, a: &SAct) -> Option<SState> {
+        // (1) advice from the native pre-state, one action
+        smt_eval(self.ctx, &self.cfg, &self.hist, "single", &s.hist, &[*a], false);
+        // (2) the whole history in one execution: advice is what the VM itself produced
+        if !s.hist.is_empty() {
+            let mut all = s.hist.clone();
+            all.push(*a);
+            smt_eval(self.ctx, &self.cfg, &self.hist, "chain", &[], &all, false);
+        }
+        let mut n = s.clone();
+        self.cfg.apply(&mut n.smt, *a);
+        if let SAct::Set(..) = a {
+            n.hist.push(*a);
+        }
+        Some(n)
+    }
+    fn canon(&self, s: &SState) -> Vec<u8> {
+        let mut entries: Vec<(W, W)> = s.smt.entries().map(|(k, v)| (undigest(*k), unword(*v))).collect();
+        entries.sort();
+        format!("{:?}|{:?}", undigest(s.smt.root()), entries).into_bytes()
+    }
+}
+
+// ------------------------------------------------------------------------------------------------
+// MMR machine
+// ------------------------------------------------------------------------------------------------
+
+#[derive(Clone, Copy, PartialEq, Eq, Debug)]
+enum MAct {
+    Add(u8),
+    Get(u32),
+    /// every leaf is added on the VM (empty memory, empty Merkle store), then every position is read
+    ChainGetAll,
+    Pack,
+    Unpack,
+    UnpackBad,
+    PackUnpack,
+}
+
+impl MAct {
+    fn to_json(self) -> Value {
+        match self {
+            MAct::Add(l) => json!({"add": l}),
+            MAct::Get(p) => json!({"get": p}),
+            MAct::ChainGetAll => json!("chain_get_all"),
+            MAct::Pack => json!("pack"),
+            MAct::Unpack => json!("unpack"),
+            MAct::UnpackBad => json!("unpack_bad"),
+            MAct::PackUnpack => json!("pack_unpack"),
+        }
+    }
+    fn from_json(v: &Value) -> MAct {
+        if let Some(s) = v.as_str() {
+            return match s {
+                "pack" => MAct::Pack,
+                "unpack" => MAct::Unpack,
+                "unpack_bad" => MAct::UnpackBad,
+                "pack_unpack" => MAct::PackUnpack,
+                "chain_get_all" => MAct::ChainGetAll,
+                _ => panic!("unknown mmr action {s}"),
+            };
+        }
+        if let Some(l) = v["add"].as_u64() {
+            MAct::Add(l as u8)
+        } else {
+            MAct::Get(v["get"].as_u64().expect("mmr action") as u32)
+        }
+    }
+}
+
+fn mmr_leaf_alphabet(seed: u64) -> [W; 2] {
+    let s = seed.wrapping_mul(0x5851_F42D).wrapping_add(seed >> 5) % (1 << 40);
+    [[s + 11, s + 12, s + 13, s + 14], [s + 21, s + 22, s + 23, s + 24]]
+}
+
+fn mmr_prefill_leaf(i: usize) -> W {
+    [40_001 + i as u64, 3, 5, 7]
+}
+
+fn mmr_leaves(seed: u64, prefill: usize, hist: &[u8]) -> Vec<W> {
+    let alpha = mmr_leaf_alphabet(seed);
+    (0..prefill).map(mmr_prefill_leaf).chain(hist.iter().map(|l| alpha[*l as usize])).collect()
+}
+
+fn mmr_build(leaves: &[W]) -> Mmr {
+    let mut m = Mmr::new();
+    for l in leaves {
+        m.add(digest(*l));
+    }
+    m
+}
+
+fn mmr_peaks_of(m: &Mmr) -> Vec<W> {
+    m.peaks(m.forest()).expect("peaks").peaks().iter().map(|d| undigest(*d)).collect()
+}
+
+/// (peak index, depth of the peak's tree, position inside the tree) of leaf `pos`
+fn mmr_locate(forest: u64, pos: u64) -> (usize, u8, u64) {
+    let mut acc = 0u64;
+    let mut idx = 0usize;
+    for b in (0..64u8).rev() {
+        if forest >> b & 1 == 1 {
+            let size = 1u64 << b;
+            if pos < acc + size {
+                return (idx, b, pos - acc);
+            }
+            acc += size;
+            idx += 1;
+        }
+    }
+    panic!("position {pos} is not in forest {forest}")
+}
+
+fn mmr_eval(ctx: &Ctx, hist: &Hist, prefill: usize, h: &[u8], act: MAct, verbose: bool) {
+    let case = json!({"part": "mmr", "prefill": prefill, "hist": h, "act": act.to_json()});
+    let rep = Rep { ctx, verbose, case };
+    let leaves = mmr_leaves(ctx.seed, prefill, h);
+    let native = mmr_build(&leaves);
+    let n = leaves.len() as u64;
+    let peaks = mmr_peaks_of(&native);
+    let mut store = MerkleStore::new();
+    store.extend(native.inner_nodes());
+    let outcome: String = match act {
+        MAct::Pack => check_mmr_op(&rep, "pack", n, &peaks, [0; 4], store).0.into(),
+        MAct::Unpack => check_mmr_op(&rep, "unpack", n, &peaks, [0; 4], store).0.into(),
+        MAct::UnpackBad => check_mmr_op(&rep, "unpack_bad", n, &peaks, [0; 4], store).0.into(),
+        MAct::PackUnpack => check_mmr_op(&rep, "pack_unpack", n, &peaks, [0; 4], store).0.into(),
+        MAct::Add(l) => {
+            let el = mmr_leaf_alphabet(ctx.seed)[l as usize];
+            let mut native2 = native.clone();
+            native2.add(digest(el));
+            let peaks2 = mmr_peaks_of(&native2);
+            // the reference used for the memory layout must be the native structure's result
+            assert_eq!(ref_add(n, &peaks, el), peaks2, "documentation-derived add disagrees with native Mmr");
+            let (out, obs) = check_mmr_op(&rep, "add", n, &peaks, el, store);
+            if let Some(o) = obs {
+                // "update … the advice provider with any merged nodes": every leaf must be reachable
+                // from its new peak through the VM's Merkle store
+                let host = o.p.host.borrow();
+                let st = host.advice_provider().store();
+                let mut bad = None;
+                let mut all = leaves.clone();
+                all.push(el);
+                for (pos, leaf) in all.iter().enumerate() {
+                    let (pi, depth, rel) = mmr_locate(n + 1, pos as u64);
+                    if depth == 0 {
+                        continue;
+                    }
+                    let got = st.get_node(digest(peaks2[pi]), NodeIndex::new(depth, rel).expect("index"));
+                    if got.ok().map(undigest) != Some(*leaf) {
+                        bad = Some(pos);
+                        break;
+                    }
+                }
+                drop(host);
+                if let Some(pos) = bad {
+                    rep.fail("advice_store_not_updated", "std::collections::mmr::add", &class_of_leaves(n), format!("leaf {pos} of {} is not reachable from its peak in the VM's Merkle store after add", n + 1));
+                }
+            }
+            out.into()
+        }
+        MAct::ChainGetAll => {
+            let class = class_of_leaves(n);
+            let src = format!(
+                "use.std::collections::mmr begin
+                    dup dup neq.0
+                    while.true push.{MMR_PTR} padw adv_loadw exec.mmr::add sub.1 dup neq.0 end
+                    drop dup neq.0
+                    while.true
+                        sub.1 dup push.{MMR_PTR} swap exec.mmr::get
+                        dup.4 push.{CHAIN_OUT} add mem_storew dropw
+                        dup neq.0
+                    end
+                    drop
+                end"
+            );
+            let sent = sentinels(16);
+            let mut stack = vec![n];
+            stack.extend(&sent);
+            let adv_stack: Vec<u64> = leaves.iter().flatten().copied().collect();
+            let mut exp_mem = mmr_layout(MMR_PTR, n, &peaks);
+            for (i, l) in leaves.iter().enumerate() {
+                assert_eq!(undigest(native.get(i).expect("native get")), *l);
+                exp_mem.insert(CHAIN_OUT + i as u64, *l);
+            }
+            match exec(&program(&src), &stack, AdviceInputs::default().with_stack(felts(&adv_stack))) {
+                Err(p) => {
+                    rep.fail("panic", "std::collections::mmr::add+get", &class, guard::short_panic(&p));
+                    "panic".into()
+                }
+                Ok(o) => {
+                    rep.say(|| format!("{n} leaves added on the VM, then get(pos) for every pos stored at {CHAIN_OUT}+pos: stack {}\nmemory {:?}\nexpected memory {exp_mem:?}", brief(&o.stack), o.mem));
+                    match &o.stack {
+                        Err(e) => {
+                            rep.fail("unexpected_error", "std::collections::mmr::add+get", &class, format!("{n} leaves added on the VM: {}", err_variant(e)));
+                            "error".into()
+                        }
+                        Ok(s) if *s != sent => {
+                            rep.fail("wrong_stack", "std::collections::mmr::add+get", &class, format!("{n} leaves: stack {s:?}, expected {sent:?}"));
+                            "wrong_stack".into()
+                        }
+                        Ok(_) => match mem_mismatch(&exp_mem, &o.mem) {
+                            Some(d) => {
+                                rep.fail("wrong_leaf_or_layout", "std::collections::mmr::add+get", &class, format!("{n} leaves added on the VM: {d}"));
+                                "wrong_memory".into()
+                            }
+                            None => "ok".into(),
+                        },
+                    }
+                }
+            }
+        }
+        MAct::Get(pos) => {
+            let pos = pos as u64;
+            let (_, depth, _) = mmr_locate(n, pos);
+            let class = format!("peak_depth{}", if depth == 0 { "=0" } else { ">0" });
+            let native_leaf = undigest(native.get(pos as usize).expect("native get"));
+            assert_eq!(native_leaf, leaves[pos as usize]);
+            let sent = sentinels(16);
+            let (mut stack, ld_adv) = mmr_loader(MMR_PTR, n, &peaks);
+            stack.extend([pos, MMR_PTR]);
+            let src = format!("use.std::collections::mmr {LOADER} begin exec.load_words exec.mmr::get end");
+            let adv = AdviceInputs::default().with_stack(felts(&ld_adv)).with_merkle_store(store);
+            stack.extend(&sent);
+            let mut expected = vec![];
+            push_w(&mut expected, native_leaf);
+            expected.extend(&sent);
+            match exec(&program(&src), &stack, adv) {
+                Err(p) => {
+                    rep.fail("panic", "std::collections::mmr::get", &class, guard::short_panic(&p));
+                    "panic".into()
+                }
+                Ok(o) => {
+                    rep.say(|| format!("{n} leaves, get({pos}): stack {}\nexpected Ok{expected:?}\nmemory {:?}", brief(&o.stack), o.mem));
+                    match &o.stack {
+                        Err(e) => {
+                            rep.fail("unexpected_error", "std::collections::mmr::get", &class, format!("{n} leaves, pos {pos}: {}", err_variant(e)));
+                            "error".into()
+                        }
+                        Ok(s) if *s != expected => {
+                            rep.fail("wrong_leaf", "std::collections::mmr::get", &class, format!("{n} leaves, pos {pos}: stack {s:?}, expected {expected:?}"));
+                            "wrong_leaf".into()
+                        }
+                        Ok(_) => match mem_mismatch(&mmr_layout(MMR_PTR, n, &peaks), &o.mem) {
+                            Some(d) => {
+                                rep.fail("wrong_memory", "std::collections::mmr::get", &class, format!("{n} leaves: {d}"));
+                                "wrong_memory".into()
+                            }
+                            None => "ok".into(),
+                        },
+                    }
+                }
+            }
+        }
+    };
+    let kind = match act {
+        MAct::Add(_) => "add",
+        MAct::Get(_) => "get",
+        MAct::ChainGetAll => "chain_get_all",
+        MAct::Pack => "pack",
+        MAct::Unpack => "unpack",
+        MAct::UnpackBad => "unpack_bad",
+        MAct::PackUnpack => "pack_unpack",
+    };
+    hist.inc(&format!("{kind}:{outcome}"));
+}
+
+#[derive(Clone)]
+struct MState {
+    prefill: usize,
+    hist: Vec<u8>,
+}
+
+struct MmrModel<'a> {
+    ctx: &'a Ctx,
+    prefills: Vec<usize>,
+    hist: Hist,
+}
+
+impl bfs::Model for MmrModel<'_> {
+    type State = MState;
+    type Action = MAct;
+    fn init(&self) -> Vec<MState> {
+        self.prefills.iter().map(|p| MState { prefill: *p, hist: vec![] }).collect()
+    }
+    fn actions(&self, s: &MState) -> Vec<MAct> {
+        let n = (s.prefill + s.hist.len()) as u32;
+        let mut v = vec![MAct::Pack, MAct::Unpack, MAct::UnpackBad, MAct::PackUnpack, MAct::ChainGetAll];
+        v.extend((0..n).map(MAct::Get));
+        v.extend([MAct::Add(0), MAct::Add(1)]);
+        v
+    }
+    fn step(&self, s: &MState, a: &MAct) -> Option<MState> {
+        mmr_eval(self.ctx, &self.hist, s.prefill, &s.hist, *a, false);
+        let mut n = s.clone();
+        if let MAct::Add(l) = a {
+            n.hist.push(*l);
+        }
+        Some(n)
+    }
+    fn canon(&self, s: &MState) -> Vec<u8> {
+        let m = mmr_build(&mmr_leaves(self.ctx.seed, s.prefill, &s.hist));
+        format!("{}|{:?}", m.forest(), mmr_peaks_of(&m)).into_bytes()
+    }
+}
+
+// ------------------------------------------------------------------------------------------------
+// driver
+// ------------------------------------------------------------------------------------------------
+
+const TRUNCATE_MODES: [&str; 5] = ["inputs", "pushes", "call16", "call21", "exec_locals"];
+const MMR_HELPERS: [&str; 5] = ["u32unchecked_trailing_ones", "trailing_ones", "ilog2_checked", "num_leaves_to_num_peaks", "num_peaks_to_message_size"];
+const SYNTH_OPS: [&str; 5] = ["pack", "unpack", "unpack_bad", "pack_unpack", "add"];
+
+fn replay_case(ctx: &Ctx, case: &Value) {
+    let hist = Hist::new();
+    let s = |k: &str| case[k].as_str().unwrap_or_else(|| panic!("replay case lacks string field {k}")).to_string();
+    match case["part"].as_str().expect("part") {
+        "truncate" => check_truncate(ctx, &s("mode"), u(case, "k"), true),
+        "memcopy" => {
+            let c = check_memcopy(ctx, u(case, "n"), u(case, "read_ptr"), u(case, "write_ptr"), true);
+            println!("outcome class: {c}");
+        }
+        "pipe_words" => println!("outcome class: {}", check_pipe_words(ctx, u(case, "n"), u(case, "ptr"), true)),
+        "pipe_double" => println!("outcome class: {}", check_pipe_double(ctx, u(case, "n"), u(case, "ptr"), &s("init"), true)),
+        "pipe_preimage" => println!("outcome class: {}", check_pipe_preimage(ctx, u(case, "n"), u(case, "ptr"), &s("com"), true)),
+        "mmr_arith" => println!("outcome class: {}", check_mmr_arith(ctx, &s("proc"), u(case, "x"), true)),
+        "mmr_synth" => println!("outcome class: {}", check_mmr_synth(ctx, &s("op"), u(case, "num_leaves"), true)),
+        "smt" => {
+            let cfg = smt_cfg(u(case, "nkeys") as usize, ctx.seed);
+            smt_eval(ctx, &cfg, &hist, &s("mode"), &acts_from(&case["base"]), &acts_from(&case["acts"]), true);
+            println!("outcome classes: {}", hist.json());
+            if std::env::var("C18_TIMING").is_ok() {
+                let t = std::time::Instant::now();
+                smt_eval(ctx, &cfg, &Hist::new(), &s("mode"), &acts_from(&case["base"]), &acts_from(&case["acts"]), false);
+                println!("second evaluation took {:?}", t.elapsed());
+            }
+        }
+        "mmr" => {
+            let h: Vec<u8> = case["hist"].as_array().expect("hist").iter().map(|x| x.as_u64().unwrap() as u8).collect();
+            mmr_eval(ctx, &hist, u(case, "prefill") as usize, &h, MAct::from_json(&case["act"]), true);
+            if std::env::var("C18_TIMING").is_ok() {
+                let t = std::time::Instant::now();
+                mmr_eval(ctx, &Hist::new(), u(case, "prefill") as usize, &h, MAct::from_json(&case["act"]), false);
+                println!("second evaluation took {:?}", t.elapsed());
+            }
+            println!("outcome classes: {}", hist.json());
+        }
+        "probe" => {
+            // development aid: run an arbitrary program and print what the harness observes
+            let ints = |k: &str| -> Vec<u64> { case[k].as_array().map(|a| a.iter().map(|x| x.as_u64().unwrap()).collect()).unwrap_or_default() };
+            let prog = program(&s("src"));
+            let t = std::time::Instant::now();
+            let o = exec(&prog, &ints("stack"), AdviceInputs::default().with_stack(felts(&ints("adv_stack")))).expect("probe panicked");
+            println!("probe: {} cycles in {:?}: stack {} memory {:?}", o.p.system.clk(), t.elapsed(), brief(&o.stack), o.mem);
+        }
+        p => panic!("unknown part {p}"),
+    }
+}
+
+/// Every run allocates ~100 trace columns; on this box a fresh page costs ~0.1 ms, so returning
+/// freed memory to the kernel after each run makes execution time quadratic-looking in the cycle
+/// count. Keep freed memory in the process instead.
+fn tune_allocator() {
+    #[cfg(all(target_os = "linux", target_env = "gnu"))]
+    unsafe {
+        libc::mallopt(libc::M_MMAP_THRESHOLD, 32 << 20);
+        libc::mallopt(libc::M_TRIM_THRESHOLD, i32::MAX);
+        libc::mallopt(libc::M_TOP_PAD, 64 << 20);
+    }
+}
+
+/// the loader and the observation path themselves (machinery, not a verdict)
+fn self_check() {
+    let prog = program(&format!("{LOADER} begin exec.load_words end"));
+    let mut stack = vec![2, 300];
+    stack.extend(sentinels(16));
+    let o = exec(&prog, &stack, AdviceInputs::default().with_stack(felts(&[1, 2, 3, 4, 5, 6, 7, 8]))).expect("loader must not panic");
+    assert_eq!(o.stack.as_ref().expect("loader must run"), &sentinels(16), "loader must leave the stack clean");
+    let exp: Mem = [(300, [1, 2, 3, 4]), (301, [5, 6, 7, 8])].into_iter().collect();
+    assert!(mem_mismatch(&exp, &o.mem).is_none(), "loader must write the words in advice order: {:?}", o.mem);
+    let o2 = exec(&prog, &stack, AdviceInputs::default().with_stack(felts(&[1, 2, 3, 4, 5, 6, 7, 8]))).expect("loader must not panic");
+    assert!(o.stack == o2.stack && o.mem == o2.mem, "two runs of the same case must give the same observation");
+    let mut v = vec![];
+    push_w(&mut v, [1, 2, 3, 4]);
+    assert_eq!(word_at(&v, 0), [1, 2, 3, 4]);
+    let _ = ZERO;
+}
+
+pub fn run(ctx: &Ctx, replay: Option<&Value>) -> i32 {
+    if let Some(case) = replay {
+        tune_allocator();
+        replay_case(ctx, case);
+        return ctx.finish(LEVEL, json!({}), &[]);
+    }
+    tune_allocator();
+    self_check();
+    let tier = ctx.tier;
+    let t0 = std::time::Instant::now();
+    let mut timing = BTreeMap::new();
+    let mut lap = |name: &str, t: &mut std::time::Instant| {
+        timing.insert(name.to_string(), (t.elapsed().as_secs_f64() * 100.0).round() / 100.0);
+        *t = std::time::Instant::now();
+    };
+    let mut t = t0;
+
+    // ---- truncate_stack ---------------------------------------------------------------------
+    let mut trunc_cases: Vec<(&str, u64)> = vec![];
+    for m in TRUNCATE_MODES {
+        let (lo, hi) = if m == "inputs" { (16u64, 48u64) } else { (0, 32) };
+        trunc_cases.extend((lo..=hi).map(|k| (m, k)));
+    }
+    trunc_cases.par_iter().for_each(|(m, k)| check_truncate(ctx, m, *k, false));
+    ctx.sample(json!({"part": "truncate", "mode": "call21", "k": 17, "meaning": "21 caller elements, callee pushes 17 then truncates: depth 33 seen by truncate_stack"}));
+    lap("truncate_stack", &mut t);
+
+    // ---- memcopy ------------------------------------------------------------------------------
+    let n_max = tier.pick(4u64, 6);
+    let mut mc_cases = vec![];
+    for n in 0..=n_max {
+        for r in 100..108u64 {
+            for w in 100..108u64 {
+                mc_cases.push((n, r, w));
+            }
+        }
+    }
+    let mc_hist = Hist::new();
+    mc_cases.par_iter().for_each(|&(n, r, w)| mc_hist.inc(check_memcopy(ctx, n, r, w, false)));
+    let mc_overlapping = mc_cases.iter().filter(|&&(n, r, w)| n > 0 && r < w + n && w < r + n).count();
+    ctx.sample(json!({"part": "memcopy", "n": 3, "read_ptr": 101, "write_ptr": 105}));
+    lap("memcopy", &mut t);
+
+    // ---- pipe_* -------------------------------------------------------------------------------
+    let pipe_hist = Hist::new();
+    let words_max = tier.pick(5u64, 11);
+    let ptrs: Vec<u64> = tier.pick(vec![100], vec![0, 100, 1_000_000_000]);
+    let mut pipe_cases: Vec<Value> = vec![];
+    for &ptr in &ptrs {
+        for n in 0..=words_max {
+            pipe_cases.push(json!({"p": "words", "n": n, "ptr": ptr}));
+            for com in ["ok", "bad0", "bad1", "bad2", "bad3", "other"] {
+                pipe_cases.push(json!({"p": "preimage", "n": n, "ptr": ptr, "com": com}));
+            }
+            if n % 2 == 0 {
+                for init in ["zero", "distinct"] {
+                    pipe_cases.push(json!({"p": "double", "n": n, "ptr": ptr, "init": init}));
+                }
+            }
+        }
+    }
+    pipe_cases.par_iter().for_each(|c| {
+        let (n, ptr) = (u(c, "n"), u(c, "ptr"));
+        match c["p"].as_str().unwrap() {
+            "words" => pipe_hist.inc(&format!("pipe_words:{}", check_pipe_words(ctx, n, ptr, false))),
+            "double" => pipe_hist.inc(&format!("pipe_double_words:{}", check_pipe_double(ctx, n, ptr, c["init"].as_str().unwrap(), false))),
+            _ => pipe_hist.inc(&format!("pipe_preimage:{}", check_pipe_preimage(ctx, n, ptr, c["com"].as_str().unwrap(), false))),
+        }
+    });
+    ctx.sample(json!({"part": "pipe_preimage", "n": 3, "ptr": 100, "com": "bad2"}));
+    lap("pipe", &mut t);
+
+    // ---- mmr helpers and synthetic peak lists -------------------------------------------------
+    let arith_hist = Hist::new();
+    let mut arith_cases = vec![];
+    for p in MMR_HELPERS {
+        arith_cases.extend(mmr_arith_inputs(p, tier).into_iter().map(|x| (p, x)));
+    }
+    arith_cases.par_iter().for_each(|(p, x)| arith_hist.inc(&format!("{p}:{}", check_mmr_arith(ctx, p, *x, false))));
+    let synth_hist = Hist::new();
+    let synth_ns = mmr_synth_leaf_counts(tier);
+    let synth_cases: Vec<(&str, u64)> = SYNTH_OPS.iter().flat_map(|op| synth_ns.iter().map(move |n| (*op, *n))).collect();
+    synth_cases.par_iter().for_each(|(op, n)| synth_hist.inc(&format!("{op}:{}", check_mmr_synth(ctx, op, *n, false))));
+    ctx.sample(json!({"part": "mmr_synth", "op": "add", "num_leaves": 131071}));
+    lap("mmr_helpers_and_synthetic_peaks", &mut t);
+
+    // ---- SMT machine --------------------------------------------------------------------------
+    let nkeys = tier.pick(3usize, 4);
+    let smt_depth = tier.pick(3usize, 5);
+    let smt_model = SmtModel { ctx, cfg: smt_cfg(nkeys, ctx.seed), hist: Hist::new() };
+    let smt_stats = bfs::bfs(&smt_model, smt_depth, tier.pick(40.0, 600.0), 1_000_000);
+    lap("smt_bfs", &mut t);
+    // every sequence of actions of a fixed length in one VM execution (shorter ones are prefixes)
+    let seq_plans: Vec<(usize, usize)> = tier.pick(vec![(3, 3)], vec![(3, 4), (4, 3)]);
+    let seq_hist = Hist::new();
+    let mut n_seqs = 0usize;
+    let mut seq_desc = vec![];
+    for &(nk, len) in &seq_plans {
+        let seq_cfg = smt_cfg(nk, ctx.seed);
+        let seqs = mcx::space::tuples(&seq_cfg.actions(), len);
+        assert_eq!(seqs.len() as u64, mcx::space::tuples_card(seq_cfg.actions().len(), len));
+        seqs.par_iter().for_each(|s| smt_eval(ctx, &seq_cfg, &seq_hist, "sequence", &[], s, false));
+        ctx.sample(json!({"part": "smt", "mode": "sequence", "nkeys": nk, "base": [], "acts": acts_json(&seqs[seqs.len() / 3])}));
+        n_seqs += seqs.len();
+        seq_desc.push(format!("all {} sequences of length {len} over the {} actions on {nk} keys", seqs.len(), seq_cfg.actions().len()));
+    }
+    lap("smt_sequences", &mut t);
+
+    // ---- MMR machine --------------------------------------------------------------------------
+    let mmr_model = MmrModel { ctx, prefills: tier.pick(vec![0, 13], vec![0, 13, 29, 61]), hist: Hist::new() };
+    let mmr_depth = tier.pick(5usize, 8);
+    let mmr_stats = bfs::bfs(&mmr_model, mmr_depth, tier.pick(40.0, 600.0), 1_000_000);
+    ctx.sample(json!({"part": "mmr", "prefill": 13, "hist": [0, 1, 1], "act": "chain_get_all"}));
+    lap("mmr_bfs", &mut t);
+
+    let caps: Vec<String> = [&smt_stats.cap_hit, &mmr_stats.cap_hit].iter().filter_map(|c| (*c).clone()).collect();
+    if !caps.is_empty() {
+        panic!("explorer cap hit before the stated bound: {caps:?}");
+    }
+    let smt_vm_runs: u64 = ["single", "chain"].iter().map(|m| smt_model.hist.0.lock().unwrap().iter().filter(|(k, _)| k.starts_with(m) && !k.ends_with("chain_cut_short")).map(|(_, v)| *v).sum::<u64>()).sum();
+    let unspecified: u64 = [&smt_model.hist, &seq_hist].iter().map(|h| h.0.lock().unwrap().iter().filter(|(k, _)| k.contains("unspecified")).map(|(_, v)| *v).sum::<u64>()).sum();
+    let transitions = smt_stats.transitions + mmr_stats.transitions;
+    let e_cases = trunc_cases.len() + mc_cases.len() + pipe_cases.len() + arith_cases.len() + synth_cases.len() + n_seqs;
+    let cov = json!({
+        "states": smt_stats.states + mmr_stats.states,
+        "transitions": transitions,
+        "traces_validated_against_impl": transitions,
+        "exhaustive": true,
+        "bounds": {
+            "truncate_stack": "depth seen by the procedure 16..=48 (stack inputs), 16+k / 18+k for k pushes 0..=32 at top level, inside call (caller depth 16 and 21) and inside a procedure with 3 locals; contents pairwise distinct",
+            "memcopy": format!("n in 0..={n_max}, read_ptr and write_ptr in 100..=107, memory {FILL_LO}..{FILL_HI} pre-filled with distinct words"),
+            "pipe": format!("word counts 0..={words_max} (double_words: even only), write_ptr in {ptrs:?}, preimage with the correct commitment, each commitment element off by one, and the hash of other data"),
+            "mmr_helpers": "0..=256 (thorough 4096), 2^k, 2^k±1, all values with two set bits / one cleared bit below 2^k, for k < 32 (u32 helpers) or k < 64",
+            "mmr_synthetic_peaks": format!("pack / unpack / unpack with corrupted data / pack→unpack / add on {} leaf counts (0..=40(300), 2^k-1, 2^k, 2^k+1 for k in 6..=20(31), 2^32-1, 2^32, 2^32+1) with synthetic peaks", synth_ns.len()),
+            "smt_machine": format!("{nkeys} keys (keys 0,1 share leaf index 42; key 2 leaf 77; key 3 leaf 76), values {{EMPTY, v1, v2}}, actions get(k), peek(k) (= adv.push_smtpeek adv_push.4), set(k,v); BFS depth {smt_depth}, de-duplicated by root + stored pairs; every transition: one VM run with advice from the native pre-state + one VM run of the state's whole history followed by the action"),
+            "smt_sequences": format!("{}; each in one VM execution from the empty tree", seq_desc.join("; ")),
+            "mmr_machine": format!("initial MMRs with {:?} leaves, actions add(leaf a|b), get(pos) for every valid pos, 're-add every leaf on the VM starting from nothing, then get every pos' in one execution, pack, unpack, unpack with corrupted data, pack→unpack; BFS depth {mmr_depth}, de-duplicated by forest + peaks", mmr_model.prefills),
+        },
+        "smt_machine": {"states": smt_stats.states, "transitions": smt_stats.transitions, "duplicates": smt_stats.duplicates, "frontier_sizes": smt_stats.frontier_sizes, "depth_completed": smt_stats.depth_completed, "vm_runs": smt_vm_runs, "outcomes": smt_model.hist.json()},
+        "smt_sequences": {"sequences": n_seqs, "outcomes": seq_hist.json()},
+        "mmr_machine": {"states": mmr_stats.states, "transitions": mmr_stats.transitions, "duplicates": mmr_stats.duplicates, "frontier_sizes": mmr_stats.frontier_sizes, "depth_completed": mmr_stats.depth_completed, "outcomes": mmr_model.hist.json()},
+        "unspecified_cases_not_compared": unspecified,
+        "enumerated_cases_outside_the_machines": e_cases,
+        "truncate_stack_cases": trunc_cases.len(),
+        "truncate_stack_depths": "16..=48",
+        "memcopy_triples": mc_cases.len(),
+        "memcopy_overlapping_triples": mc_overlapping,
+        "memcopy_outcomes": mc_hist.json(),
+        "pipe_cases": pipe_cases.len(),
+        "pipe_outcomes": pipe_hist.json(),
+        "mmr_helper_cases": arith_cases.len(),
+        "mmr_helper_outcomes": arith_hist.json(),
+        "mmr_synthetic_cases": synth_cases.len(),
+        "mmr_synthetic_outcomes": synth_hist.json(),
+        "wall_s_per_part": timing,
+    });
+    let _ = mc_hist.get("ok");
+    ctx.finish(LEVEL, cov, &[
+        "miden-crypto's Smt, Mmr, MmrPeaks, MerkleStore and Rpo256 are the reference (the property names them as such)",
+        "cases the masm documentation marks as unimplemented (smt leaf with several pairs) or leaves undefined (memcopy on overlapping ranges, pipe_double_words with zero words) are executed and counted, and only checked for: a returned result equals the native one / nothing outside the destination changes",
+        "memory above 2^30 (procedure locals of the root context) is not compared",
+        "value words, leaf digests and synthetic peaks are fixed opaque payloads (VERIF_SEED shifts the SMT values and MMR leaves)",
+    ])
 }
